@@ -19,6 +19,10 @@ CheckAddr(env, cfg, a, e) ==
   IF ~EnvReady(env, a) THEN EnvMissingV("hash")
   ELSE IF e.rtype # GoType(a.kind) THEN V("address-kind", GoType(a.kind), e.rtype)
   ELSE IF e.payload # a.payload THEN V("script-payload", a.payload, e.payload)
+  \* Hash160() / Hash256() return the same hash as an array; PubKey() is the same point (its X coordinate is the
+  \* one in the serialisation, whatever the format)
+  ELSE IF "hashm" \in DOMAIN e /\ e.hashm # a.payload THEN V("hash-accessor", a.payload, e.hashm)
+  ELSE IF "pubm" \in DOMAIN e /\ (Len(e.pubm) # 33 \/ SubSeq(e.pubm, 2, 33) # SubSeq(a.payload, 2, 33)) THEN V("pubkey-accessor", SubSeq(a.payload, 2, 33), e.pubm)
   ELSE IF e.enc # EncodeOf(env, a) THEN V("encoded-string", EncodeOf(env, a), e.enc)
   ELSE IF e.str # StringOf(env, a) THEN V("string-form", StringOf(env, a), e.str)
   ELSE IF ~a.slp /\ \E n \in 1..Len(cfg.nets) : e.fornet[n] # ForNet(a, cfg.nets[n])
